@@ -202,6 +202,19 @@ def removeAt (t : Tree T) (pos : Nat) : Except Panic T × Tree T :=
   | .nil => (.error .unwrap, t')
   | .node it _ _ _ => (.ok it, t')
 
+/-- which element of a treap a caller clones: `0` = `first()`, `1` = `last()`, otherwise
+    `collect()[0]`. Returns the item seen and the tree the walk leaves. -/
+def pick (w : Nat) (t : Tree T) : Option T × Tree T :=
+  if w = 0 then first I t
+  else if w = 1 then last I t
+  else let r := collect I t; (r.1.head?, r.2)
+
+/-- a treap made of an item a caller holds (`Treap::from_item(it)`), or the empty treap -/
+def ofItem? (o : Option T) (p : Nat) : Tree T :=
+  match o with
+  | some it => single it p
+  | none => .nil
+
 /-! ### C16: heap order, canonical shape -/
 
 /-- is the root priority at least `p` (true for the empty tree) -/
@@ -262,6 +275,12 @@ inductive Op (E M V : Type) where
   | agg (i : Nat)                         -- aggregate stored at the root
   | tag (i : Nat) (m : M)                 -- modifier attached lazily at the root
   | drop (i : Nat)                        -- forget `ts[i]`
+  -- re-use of what the API hands back (the item itself, not a fresh `Item::new`):
+  | moveAt (i k j pos p : Nat)            -- `let it = ts[i].remove_at(k); ts[j].insert_at(pos, it)` (new node: priority `p`)
+  | takeAt (i k p : Nat)                  -- push `Treap::from_item(ts[i].remove_at(k))`, priority `p`
+  | dup (i w p : Nat)                     -- if `ts[i].size() <= 1`: push `Treap::from_item(clone of first()/last()/collect()[0])`
+                                          --   (`w` = 0/1/other; an empty treap gives `Treap::new()`); else push `Treap::new()`
+  | collect2 (i j : Nat)                  -- `TreapNode::collect_into` of `ts[i]`, then of `ts[j]`, into ONE vector
 
 /-- What an operation lets the caller observe. -/
 inductive Obs (E G : Type) where
@@ -271,6 +290,7 @@ inductive Obs (E G : Type) where
   | listE (l : List E)
   | optG (o : Option G)
   | removed (r : Except Panic E)
+  | moved (e : E) (n : Nat)               -- the element moved and the size of the receiving treap afterwards
 
 /-- One step of the model. `none` = the operation names a treap that does not exist. -/
 def stepM (ts : List (Tree T)) : Op E M V → Option (List (Tree T) × Obs E G)
@@ -335,6 +355,45 @@ def stepM (ts : List (Tree T)) : Op E M V → Option (List (Tree T) × Obs E G)
     match ts[i]? with
     | some _ => some (ts.eraseIdx i, .unit)
     | none => none
+  | .moveAt i k j pos p =>
+    match ts[i]?, ts[j]? with
+    | some t, some _ =>
+      let r := removeAt I t k
+      let ts1 := ts.set i r.2
+      match r.1 with
+      | .error e => some (ts1, .removed (.error e))
+      | .ok it =>
+        -- the SAME item the removal returned becomes the new node's item
+        match ts1[j]? with
+        | some u =>
+          let u' := insertAt I u pos it p
+          some (ts1.set j u', .moved (I.own it) (size I u'))
+        | none => none
+    | _, _ => none
+  | .takeAt i k p =>
+    match ts[i]? with
+    | some t =>
+      let r := removeAt I t k
+      match r.1 with
+      | .error e => some (ts.set i r.2, .removed (.error e))
+      | .ok it => some (ts.set i r.2 ++ [single it p], .removed (.ok (I.own it)))
+    | none => none
+  | .dup i w p =>
+    match ts[i]? with
+    | some t =>
+      if size I t ≤ 1 then
+        let r := pick I w t
+        some (ts.set i r.2 ++ [ofItem? r.1 p], .optE (r.1.map I.own))
+      else some (ts ++ [.nil], .optE none)
+    | none => none
+  | .collect2 i j =>
+    if i = j then none else
+    match ts[i]?, ts[j]? with
+    | some a, some b =>
+      let ra := collect I a
+      let rb := collect I b
+      some ((ts.set i ra.2).set j rb.2, .listE ((ra.1 ++ rb.1).map I.own))
+    | _, _ => none
 
 /-- The same operation on plain lists: the specification. It never looks at priorities. -/
 def stepS (ls : List (List E)) : Op E M V → Option (List (List E) × Obs E G)
@@ -394,6 +453,37 @@ def stepS (ls : List (List E)) : Op E M V → Option (List (List E) × Obs E G)
     match ls[i]? with
     | some _ => some (ls.eraseIdx i, .unit)
     | none => none
+  | .moveAt i k j pos _ =>
+    match ls[i]?, ls[j]? with
+    | some l, some _ =>
+      match l[k]? with
+      | none => some (ls, .removed (.error .unwrap))
+      | some x =>
+        let ls1 := ls.set i (l.eraseIdx k)
+        match ls1[j]? with
+        | some u =>
+          let u' := u.take pos ++ x :: u.drop pos
+          some (ls1.set j u', .moved x u'.length)
+        | none => none
+    | _, _ => none
+  | .takeAt i k _ =>
+    match ls[i]? with
+    | some l =>
+      match l[k]? with
+      | none => some (ls, .removed (.error .unwrap))
+      | some x => some (ls.set i (l.eraseIdx k) ++ [[x]], .removed (.ok x))
+    | none => none
+  | .dup i w _ =>
+    match ls[i]? with
+    | some l =>
+      if l.length ≤ 1 then some (ls ++ [l], .optE (if w = 1 then l.getLast? else l.head?))
+      else some (ls ++ [[]], .optE none)
+    | none => none
+  | .collect2 i j =>
+    if i = j then none else
+    match ls[i]?, ls[j]? with
+    | some a, some b => some (ls, .listE (a ++ b))
+    | _, _ => none
 
 /-- Run a history; `none` as soon as one operation is invalid. Observations in order. -/
 def runM (ts : List (Tree T)) : List (Op E M V) → Option (List (Tree T) × List (Obs E G))
@@ -448,9 +538,12 @@ def opStatedB (ls : List (List E)) : Op E M V → Bool
   | .splitAt i k | .insertAt i k _ _ => match ls[i]? with
     | some l => k ≤ l.length
     | none => true
-  | .removeAt i k => match ls[i]? with
+  | .removeAt i k | .takeAt i k _ => match ls[i]? with
     | some l => k < l.length
     | none => true
+  | .moveAt i k j pos _ => match ls[i]?, ls[j]? with
+    | some l, some u => k < l.length && pos ≤ (if i = j then u.length - 1 else u.length)
+    | _, _ => true
   | _ => true
 
 def runStatedB (ls : List (List E)) : List (Op E M V) → Bool
@@ -504,6 +597,29 @@ def stepP (ps : List (List Nat)) (op : Op E M V) (o : Obs E G) : Option (List (L
     match ps[i]? with
     | some _ => some (ps.eraseIdx i)
     | none => none
+  | .moveAt i k j pos p =>
+    match ps[i]?, ps[j]? with
+    | some l, some _ =>
+      if k < l.length then
+        let ps1 := ps.set i (l.eraseIdx k)
+        match ps1[j]? with
+        | some u => some (ps1.set j (u.take pos ++ p :: u.drop pos))
+        | none => none
+      else some ps
+    | _, _ => none
+  | .takeAt i k p =>
+    match ps[i]? with
+    | some l => if k < l.length then some (ps.set i (l.eraseIdx k) ++ [[p]]) else some ps
+    | none => none
+  | .dup i _ p =>
+    match ps[i]? with
+    | some l => some (ps ++ [if l.length = 1 then [p] else []])
+    | none => none
+  | .collect2 i j =>
+    if i = j then none else
+    match ps[i]?, ps[j]? with
+    | some _, some _ => some ps
+    | _, _ => none
 
 def runP (ps : List (List Nat)) : List (Op E M V) → List (Obs E G) → Option (List (List Nat))
   | [], _ => some ps
